@@ -132,10 +132,39 @@ func c19Drive(args []string) int {
 	rowHits := map[string]int{}
 	wholeMinute := func(loc *time.Location, t time.Time) bool { _, o := t.In(loc).Zone(); return o%60 == 0 }
 	grid := dtGrid(r, nrandom)
+	// wall-clock readings around every offset change (DST, standard-time changes) of every zone in three years: the
+	// reading is bound to that zone (as the text's zone and as fromTZ), where "which offset applies" is decided within hours
+	zoneOf := map[int]string{}
+	for _, zn := range dtZones {
+		loc, _ := time.LoadLocation(zn)
+		for _, year := range []int{1975, 2011, 2021} {
+			t := time.Date(year, 1, 1, 0, 0, 0, 0, time.UTC)
+			for k := 0; k < 4; k++ {
+				_, end := t.In(loc).ZoneBounds()
+				if end.IsZero() || end.Year() != year {
+					break
+				}
+				_, off := end.In(loc).Zone()
+				local := end.UTC().Add(time.Duration(off) * time.Second) // the wall reading at which the new offset starts
+				for _, dm := range []int{-14 * 60, -9 * 60, -5 * 60, -210, -121, -90, -45, -1, 0, 30, 61, 119, 181, 240, 5 * 60, 9 * 60, 13 * 60} {
+					w := local.Add(time.Duration(dm) * time.Minute)
+					zoneOf[len(grid)] = zn
+					grid = append(grid, civil{w.Year(), int(w.Month()), w.Day(), w.Hour(), w.Minute(), w.Second()})
+				}
+				t = end.Add(time.Hour)
+			}
+		}
+	}
 	for gi, c := range grid {
 		for _, row := range rows {
 			// concretise the row
 			inZone, fromZone, toZone := dtZones[r.Intn(len(dtZones))], dtZones[r.Intn(len(dtZones))], dtZones[r.Intn(len(dtZones))]
+			if zn, ok := zoneOf[gi]; ok {
+				inZone, fromZone = zn, zn
+				if r.Intn(2) == 0 {
+					toZone = zn
+				}
+			}
 			inLoc, _ := time.LoadLocation(inZone)
 			fromLoc, _ := time.LoadLocation(fromZone)
 			toLoc, _ := time.LoadLocation(toZone)
@@ -227,7 +256,8 @@ func c19Drive(args []string) int {
 				out, err = customfuncs.DateTimeToRFC3339(nil, text, from, to)
 			}
 			desc := M{"text": text, "from": from, "to": to, "layout": layoutDesc, "iana": useIANA}
-			nontrivial := c.Y < 1970 || c.Y > 2038 || effOff != 0 || gi >= len(grid)-nrandom-7
+			_, nearChange := zoneOf[gi]
+			nontrivial := c.Y < 1970 || c.Y > 2038 || effOff != 0 || nearChange
 			sum.eval(nontrivial, desc)
 			rowHits[fmt.Sprint(row.Row)]++
 			if err != nil {
